@@ -446,7 +446,7 @@ fn mutate_outline(r: &mut Rng, doc: &mut Document, created: &[ObjectId], cat: Ob
         let it = *r.pick(&items);
         let ac = *r.pick(&actions);
         let extra = (fresh_id.0 + m as u32, 0u16);
-        let kind = r.below(20);
+        let kind = r.below(25);
         let key = format!("mut.{:02}", kind);
         c.count(&key);
         match kind {
@@ -505,7 +505,38 @@ fn mutate_outline(r: &mut Rng, doc: &mut Document, created: &[ObjectId], cat: Ob
                 let a = doc.objects.get(&ac).cloned();
                 if let (Some(a), Some(Object::Dictionary(d))) = (a, doc.objects.get_mut(&it)) { if ref_of(d, "A") == Some(ac) { d.set("A", a); } }
             }
-            _ => { if let Some(Object::Dictionary(d)) = doc.objects.get_mut(&it) { d.remove(b"Next"); } }  // chain cut
+            19 => { if let Some(Object::Dictionary(d)) = doc.objects.get_mut(&it) { d.remove(b"Next"); } }  // chain cut
+            20 => { // the SAME dangling Next on two different items: the one `seen` set of get_outlines (bca5e67) rejects the second
+                let other_it = *r.pick(&items);
+                for x in [it, other_it] { if let Some(Object::Dictionary(d)) = doc.objects.get_mut(&x) { d.set("Next", Object::Reference((77777, 0))); } }
+                if other_it != it { c.count("mut.20.two_items"); }
+            }
+            21 | 22 => { // an item reached twice (shared, not cyclic): target = an item without First and Next
+                let leaves: Vec<ObjectId> = items.iter().filter(|id| **id != it && matches!(doc.objects.get(id), Some(Object::Dictionary(d)) if !d.has(b"First") && !d.has(b"Next"))).cloned().collect();
+                if !leaves.is_empty() {
+                    let tgt = *r.pick(&leaves);
+                    // `it` must not lie below ... a leaf has nothing below it, and nothing after it: no cycle possible
+                    if let Some(Object::Dictionary(d)) = doc.objects.get_mut(&it) {
+                        if kind == 21 { if !d.has(b"First") { d.set("First", Object::Reference(tgt)); c.count("mut.21.shared_first"); } }
+                        else if !d.has(b"Next") { d.set("Next", Object::Reference(tgt)); c.count("mut.22.shared_next"); }
+                    }
+                }
+            }
+            23 => { if let Some(Object::Dictionary(a)) = doc.objects.get_mut(&ac) { // destination array shorter than two elements (cc9b602: Err, not panic)
+                        let short = if r.chance(1, 2) { vec![] } else { vec![Object::Integer(1)] }; a.set("D", Object::Array(short)); } }
+            _ => { // named destination that resolves through the catalog's Dests name tree
+                let dst = if let Some(Object::Dictionary(a)) = doc.objects.get(&ac) { a.get(b"D").ok().cloned() } else { None };
+                if let Some(dst) = dst {
+                    let mut dd = Dictionary::new(); dd.set("D", dst);
+                    let mut tree = Dictionary::new();
+                    tree.set("Names", Object::Array(vec![Object::string_literal("named"), Object::Dictionary(dd), Object::string_literal("unused"), Object::Integer(1)]));
+                    if let Some(Object::Dictionary(d)) = doc.objects.get_mut(&cat) {
+                        if r.chance(1, 2) { d.set("Dests", Object::Dictionary(tree)); }
+                        else { let mut names = Dictionary::new(); names.set("Dests", Object::Dictionary(tree)); d.set("Names", Object::Dictionary(names)); }
+                    }
+                    if let Some(Object::Dictionary(a)) = doc.objects.get_mut(&ac) { a.set("D", Object::string_literal("named")); }
+                }
+            }
         }
     }
 }
